@@ -305,11 +305,14 @@ def gen_program(g, prof):
             acts = [["native", ch], ["spawn", gi_, cl, g.choice(["soon", "create"]), late]]
             if g.bool():
                 acts.reverse()
+            if g.chance(35):
+                # GI has no child at all when its body ends: the outsider acts during the block's exit checkpoint
+                inner = [["yield", g.int(0, 2)], ["set", "e1"]]
+            else:
+                inner = [["spawn", gi_, cc, "soon", [["yield", g.int(0, 3)], ["set", "e1"]]]]
             main = [["group", go, [
                 ["spawn", go, cs, "soon", [["wait", "e1"], ["yield", g.int(0, 2)]] + acts],
-                ["spawn", go, ch, "soon", [["group", gi_, [["spawn", gi_, cc, "soon",
-                                                            [["yield", g.int(0, 3)], ["set", "e1"]]]]],
-                                           ["yield", g.int(0, 1)]]],
+                ["spawn", go, ch, "soon", [["group", gi_, inner], ["yield", g.int(0, 1)]]],
             ] + main]]
         elif which == "outsider_start":
             # a task outside group GI calls GI.start(); GI has no ordinary child; its host leaves the body while the
@@ -362,7 +365,7 @@ def gen_program(g, prof):
             st["groups"].append(gg)
             st["children"] += [c1, c2, cx]
             spec = {"pre": g.int(5, 9), "act": g.choice(["started", "block"]), "v": g.int(0, 9), "post": 1,
-                    "end": "return", "oncancel": "boom", "cleanup": g.int(0, 2), "shielded": g.bool()}
+                    "end": "return", "oncancel": g.choice(["boom", "reraise"]), "cleanup": g.int(0, 2), "shielded": g.bool()}
             trigger = g.choice(["sibling", "sibling", "cancel"])
             first = ["spawn", gg, c1, "soon", [["yield", g.int(2, 4)]] + ([["raise", 77]] if trigger == "sibling"
                                                                           else [["cancel", gg]])]
